@@ -1,6 +1,7 @@
 package c10
 
 import (
+	"crypto/x509"
 	"fmt"
 	"math/rand/v2"
 	"time"
@@ -275,6 +276,14 @@ func (e *env) jwtAuthenticator() {
 					e.fail("issue certificate", err)
 					return
 				}
+				variant := "jwk-certificate-not-after"
+				if key.Cert != nil && e.nonce%2 == 0 {
+					// x5c chain: the leaf expires at vEnd, its issuer (the root, valid for 48h) much later;
+					// the key is unusable as soon as ANY certificate of its chain has expired
+					key.Chain = []*x509.Certificate{e.pki.CA.Certificate}
+					variant = "jwk-certificate-chain-leaf-expires-first"
+					e.r.Count("jwk_with_certificate_chain", 1)
+				}
 				e.srv.RegisterJWKS(name, ck.JWKS(key))
 				tok, err := key.SignJWT(map[string]any{"iss": name, "sub": "carol", "exp": plan.Add(2 * time.Hour).Unix(), "iat": plan.Add(-30 * time.Second).Unix()})
 				if err != nil {
@@ -282,7 +291,7 @@ func (e *env) jwtAuthenticator() {
 					return
 				}
 				sp := spec{mech: "jwt_authenticator", ttl: m.ttl, vEnd: vEnd, leeway: 0, codeLeeway: 10 * time.Second, defaultTTL: 10 * time.Minute}
-				rec := &caseRec{Mechanism: sp.mech, Backend: be, TTL: m.ttl.Name, TTLMode: m.mode, Delta: deltaName(d), Variant: "jwk-certificate-not-after",
+				rec := &caseRec{Mechanism: sp.mech, Backend: be, TTL: m.ttl.Name, TTLMode: m.mode, Delta: deltaName(d), Variant: variant,
 					Plan: plan, ValidityEnd: vEnd, Leeway: "0s", CodeLeeway: "10s", Config: map[string]any{"prototype": "jwt-" + m.proto, "override": ov}}
 				st := ck.Step{Req: ck.Req{Headers: map[string]string{"Authorization": "Bearer " + tok}}}
 				e.runPhases(rec, e.cache(be), advanceFor(sp), func(c *ck.RecCache) ck.Outcome { return ck.RunAuthn(a, st, c) })
